@@ -15,6 +15,9 @@ inductive Op where
   | sendNonza (bytes : String)    -- Send(SMRequest | SMAnswer): written, never held
   | sendRaw (s : String)          -- SendRaw(s)
   | ack (h : Nat)                 -- inbound <a h='h'/> reaching Router.route
+  | inbound                       -- an inbound stanza handled by Client.recv: nothing is written, nothing held
+  | req (answer : String)         -- inbound <r/> reaching Client.recv: the client writes the answer (the bytes of
+                                  -- `<a h='inbound count'/>`; the count itself is C09's), through Send: never held
   deriving DecidableEq, Repr
 
 /-- State: `Session.SMState.UnAckQueue` (stream management active: `Config.StreamManagementEnable = true`). -/
@@ -30,6 +33,8 @@ def step (s : St) : Op → St × List String
   | .sendStanza b => (pushS s b, [b])
   | .sendNonza b  => (s, [b])
   | .sendRaw b    => (pushS s b, [b])
+  | .req b        => (s, [b])
+  | .inbound      => (s, [])
   | .ack h =>
     let q' := dropAcked h s.q
     ({ s with q := q' }, if q'.isEmpty then [] else q'.map (·.stz) ++ [rBytes])
